@@ -298,6 +298,16 @@ func shapedScenario(g *Gen, which int) Case {
 			steps = []interface{}{cmd("mount", ln), onSub, onHost, cmd("probe"), umountAll(), cmd("probe"),
 				obj("cmd", "sysumount", "args", hxs([]string{host})), umountAll(), cmd("probe")}
 		}
+	case 20:
+		// the whole layer directory covered by a mount made by hand after the layer was
+		// mounted: every mount below the build root is out of reach, each umount(2) is refused
+		// (EINVAL) and the command must say so; once the cover is gone it works
+		for _, l := range []glayer{{name: "b0", imports: imports}} {
+			genLayerTree(g, t, l, pf, false)
+		}
+		cover := obj("cmd", "sysmount", "args", hxs([]string{"tmpfs", VB + "/layers/b0", "tmpfs"}), "flags", float64(0))
+		steps = []interface{}{cmd("mount", "b0"), cover, cmd("umount", "b0"), cmd("probe"),
+			obj("cmd", "sysumount", "args", hxs([]string{VB + "/layers/b0"})), cmd("umount", "b0"), cmd("probe")}
 	default:
 		// export directory names that differ from the layer's own directory names, explicit
 		// export directives, then rename and remove
@@ -316,7 +326,7 @@ func shapedScenario(g *Gen, which int) Case {
 
 func init() {
 	register("scn-directed", func(g *Gen, tier string, emit func(Case)) {
-		for w := 0; w < 20; w++ {
+		for w := 0; w < 21; w++ {
 			emit(shapedScenario(g, w))
 		}
 		for _, imp := range directedImports {
